@@ -210,6 +210,20 @@ async def run_items(case):
                 viol.append({"key": "mismatched-terminator-not-rejected" if got[0][0] != "StatusCodeError" else "desync-after-rejection",
                              "msg": f"reply {bad!r}: decoded {got!r}",
                              "replay_case": dict(case, items=[item], masks=None, cmdlines=[], loops=0)})
+        # negative: a continuation line in the middle carries another code, the closing line the right one again: rejected, not
+        # returned as one reply (what the rest of the stream is taken for after such a rejection is not judged: a decoder that
+        # rejects at first sight leaves the tail of the rejected reply behind, see DESIGN 7)
+        if len(lines) >= 3 and not mode:
+            other = "%03d" % ((int(code) + 1) % 1000)
+            srv_lines = wire.decode(enc).split("\r\n")[:-1]
+            k = 1 + (len(lines) + int(code)) % (len(srv_lines) - 2) if len(srv_lines) > 3 else 1
+            bad = srv_lines[:k] + [other + srv_lines[k][3:]] + srv_lines[k + 1:]
+            bwire = ("\r\n".join(bad) + "\r\n").encode(enc)
+            got = await decode_segments(bwire, rng.choice(cut_sets(len(bwire), rng, "quick")), enc, 1)
+            mon["negative_inner"] = mon.get("negative_inner", 0) + 1
+            if not (got and got[0][0] == "StatusCodeError"):
+                viol.append({"key": "mismatched-inner-line-not-rejected", "msg": f"reply {bad!r}: decoded {got!r}",
+                             "replay_case": dict(case, items=[item], masks=None, cmdlines=[], loops=0)})
     # Code.matches / check_codes
     if case.get("masks"):
         alphabet = "0123456789x* "
